@@ -1,5 +1,6 @@
 import DriverLib.Basic
 import QV.Model.Stats
+import QV.Model.Observables
 open Lean Drv QV QV.Stats
 
 namespace Drv.C13
@@ -137,6 +138,13 @@ def sampleOp (j : Json) : R Json := do
   let r := obsSample env f k numSamples (if hasInit then some ⟨0, 0⟩ else none) overwrite
   return Json.mkObj [("values", fListOut r.1), ("call", callOut r.2)]
 
+
+/-- op `c13.spinconv`: `to_01` and `to_pm1` (observables/utils.py) entry-wise on `xs` -/
+def spinconv (j : Json) : R Json := do
+  let xs ← jFloatArr (← fld j "xs")
+  return Json.mkObj [("to_01", .arr (xs.map (fun x => fOut (to01 x)))), ("to_pm1", .arr (xs.map (fun x => fOut (toPm1 x)))),
+    ("to_01_to_pm1", .arr (xs.map (fun x => fOut (to01 (toPm1 x)))))]
+
 def handle (op : String) (j : Json) : Option (R Json) :=
   match op with
   | "c13.update" => some (update j)
@@ -145,6 +153,7 @@ def handle (op : String) (j : Json) : Option (R Json) :=
   | "c13.statistics" => some (statistics j)
   | "c13.system_from_samples" => some (systemFrom j)
   | "c13.sample" => some (sampleOp j)
+  | "c13.spinconv" => some (spinconv j)
   | _ => none
 
 end Drv.C13
